@@ -1813,3 +1813,931 @@ Definition walker_py_des_macros : list (string * string * list tnode) :=
        ((CAnd (CAtom "t is not CompositeType") (CAtom "t.alignment_requirement > 1")),
         [NAct KCall "1:_des_.pad_to_alignment({{ t.alignment_requirement }})"])]
       []])].
+
+Definition walker_c_decl_definitions : list tnode :=
+  [NIf [
+     ((CAtom "options.target_endianness == 'little'"),
+      [NSet "LITTLE_ENDIAN" "True"]);
+     ((CAtom "options.target_endianness in ('any', 'big')"),
+      [NSet "LITTLE_ENDIAN" "False"])]
+    [NJAssert (CAtom "False")];
+   NIf [
+     ((CAtom "<macro> generate_metadata(t)"),
+      [NSet "ref" "t|full_reference_name";
+       NAct KRaw "#define {{ ref }}_FULL_NAME_ ""{{ t.full_name }}""";
+       NAct KRaw "#define {{ ref }}_FULL_NAME_AND_VERSION_ ""{{ t.full_name }}.{{ t.version.major }}.{{ t.version.minor }}""";
+       NIf [
+         ((CAtom "t is not ServiceType"),
+          [NJAssert (CAtom "t.extent % 8 == 0");
+           NJAssert (CAtom "t.inner_type.extent % 8 == 0");
+           NAct KRaw "#define {{ ref }}_EXTENT_BYTES_ {{ t.extent // 8 }}UL";
+           NAct KRaw "#define {{ ref }}_SERIALIZATION_BUFFER_SIZE_BYTES_ {{ t.inner_type.extent // 8 }}UL";
+           NAct KRaw "static_assert({{ ref }}_EXTENT_BYTES_ >= {{ ref }}_SERIALIZATION_BUFFER_SIZE_BYTES_,";
+           NAct KRaw """Internal constraint violation"");"])]
+        []])]
+    [];
+   NIf [
+     ((CAtom "<macro> generate_composite(t)"),
+      [NAct KRaw "{{ generate_metadata(t) }}";
+       NFor "constant in t.constants"
+        [NAct KRaw "#define {{ t | full_reference_name }}_{{ constant.name }} ({{ constant | constant_value }})"];
+       NFor "f in t.fields_except_padding if f.data_type is ArrayType"
+        [NIf [
+           ((CAnd (CAtom "opt_override_capacity") (CAtom "f.data_type is VariableLengthArrayType")),
+            [NAct KRaw "#ifndef {{ t | full_reference_name }}_{{ f.name }}_ARRAY_CAPACITY_"])]
+          [];
+         NAct KRaw "#define {{ t | full_reference_name }}_{{ f.name }}_ARRAY_CAPACITY_ {{ f.data_type.capacity }}U";
+         NIf [
+           ((CAnd (CAtom "opt_override_capacity") (CAtom "f.data_type is VariableLengthArrayType")),
+            [NAct KRaw "#elif !defined({{ t | full_reference_name }}_DISABLE_SERIALIZATION_BUFFER_CHECK_)";
+             NAct KRaw "# define {{ t | full_reference_name }}_DISABLE_SERIALIZATION_BUFFER_CHECK_";
+             NAct KRaw "#endif";
+             NAct KRaw "#if {{ t | full_reference_name }}_{{ f.name }}_ARRAY_CAPACITY_ > {{ f.data_type.capacity }}U";
+             NAct KRaw "# error {{ t | full_reference_name }}_{{ f.name }}_ARRAY_CAPACITY_ > {{ f.data_type.capacity }}U";
+             NAct KRaw "#endif"])]
+          [];
+         NAct KRaw "#define {{ t | full_reference_name }}_{{ f.name }}_ARRAY_IS_VARIABLE_LENGTH_ {{ valuetoken_true if f.data_type is VariableLengthArrayType else valuetoken_false }}"];
+       NIf [
+         ((CAtom "t.inner_type is StructureType"),
+          [NAct KRaw "{{ _define_structure(t.inner_type) }}"]);
+         ((CAtom "t.inner_type is UnionType"),
+          [NAct KRaw "{{ _define_union(t.inner_type) }}"])]
+        [NJAssert (CAtom "False")];
+       NAct KRaw "{{ _define_functions(t) }}"])]
+    [];
+   NIf [
+     ((CAtom "<macro> assert(expression)"),
+      [NIf [
+         ((CAtom "options.enable_serialization_asserts"),
+          [NAct KRaw "NUNAVUT_ASSERT({{ expression }});"])]
+        []])]
+    [];
+   NIf [
+     ((CAtom "<macro> _define_structure(t)"),
+      [NJAssert (CAtom "t is StructureType");
+       NAct KRaw "typedef struct";
+       NAct KRaw "{";
+       NFor "f in t.fields_except_padding"
+        [NIf [
+           ((CNot (CAtom "loop.first")),
+            [])]
+          [];
+         NAct KRaw "{{ _define_field(t, f.data_type, f.name) | indent }};"];
+       NIf [
+         ((CAtom "<empty> f in t.fields_except_padding"),
+          [NAct KRaw "{{ typename_byte }} _dummy_;"])]
+        [];
+       NAct KRaw "} {{ t | full_reference_name }};"])]
+    [];
+   NIf [
+     ((CAtom "<macro> _define_union(t)"),
+      [NJAssert (CAtom "t is UnionType");
+       NAct KRaw "typedef struct";
+       NAct KRaw "{";
+       NAct KRaw "union";
+       NAct KRaw "{";
+       NFor "f in t.fields_except_padding"
+        [NIf [
+           ((CNot (CAtom "loop.first")),
+            [])]
+          [];
+         NAct KRaw "{{ _define_field(t, f.data_type, f.name) | indent | indent }};"];
+       NAct KRaw "};";
+       NAct KRaw "{{ t.tag_field_type | type_from_primitive }} _tag_;";
+       NAct KRaw "} {{ t | full_reference_name }};";
+       NAct KRaw "#define {{ t | full_reference_name }}_UNION_OPTION_COUNT_ {{ t.fields | length }}U"])]
+    [];
+   NIf [
+     ((CAtom "<macro> _define_field(t, f, name, suffix='')"),
+      [NIf [
+         ((CAtom "f is PrimitiveType"),
+          [NAct KRaw "{{ f | type_from_primitive }} {{ name | id }}{{ suffix }}"]);
+         ((CAtom "f is CompositeType"),
+          [NAct KRaw "{{ f | full_reference_name }} {{ name | id }}{{ suffix }}"]);
+         ((CAtom "f is FixedLengthArrayType"),
+          [NIf [
+             ((CAtom "f.element_type is BooleanType"),
+              [NAct KRaw "{{ _define_bitpacked_array_field((name | id) + '_bitpacked_', f.capacity) }}{{ suffix }}"])]
+            [NAct KRaw "{{ _define_field(t, f.element_type, name, '[%s]'|format(f.capacity)) }}{{ suffix }}"]]);
+         ((CAtom "f is VariableLengthArrayType"),
+          [NAct KRaw "struct";
+           NAct KRaw "{";
+           NIf [
+             ((CAtom "f.element_type is BooleanType"),
+              [NAct KRaw "{{ _define_bitpacked_array_field('bitpacked', f.capacity) | indent }};"])]
+            [NAct KRaw "{{ _define_field(t, f.element_type, 'elements', '[%s_%s_ARRAY_CAPACITY_]'|format(t|full_reference_name, name)) }};"];
+           NAct KRaw "{{ typename_unsigned_length }} count;";
+           NAct KRaw "} {{ name | id }}{{ suffix }}"])]
+        [NJAssert (CAtom "False")]])]
+    [];
+   NIf [
+     ((CAtom "<macro> _define_bitpacked_array_field(name, capacity)"),
+      [NAct KRaw "{{ typename_byte }} {{ name | id }}[{{ capacity | bits2bytes_ceil }}]"])]
+    [];
+   NIf [
+     ((CAtom "<macro> _define_functions(t)"),
+      [NIf [
+         ((CNot (CAtom "nunavut.support.omit")),
+          [NAct KRaw "static inline {{ typename_error_type }} {{ t | full_reference_name }}_serialize_(";
+           NAct KRaw "const {{ t | full_reference_name }}* const obj, {{ typename_byte }}* const buffer, {{ typename_unsigned_length }}* const inout_buffer_size_bytes)";
+           NAct KRaw "{";
+           NSet "from" "'serialization.j2' import serialize";
+           NAct KRaw "{{ serialize(t)|trim|remove_blank_lines }}";
+           NAct KRaw "}";
+           NAct KRaw "static inline {{ typename_error_type }} {{ t | full_reference_name }}_deserialize_(";
+           NAct KRaw "{{ t | full_reference_name }}* const out_obj, const {{ typename_byte }}* buffer, {{ typename_unsigned_length }}* const inout_buffer_size_bytes)";
+           NAct KRaw "{";
+           NSet "from" "'deserialization.j2' import deserialize";
+           NAct KRaw "{{ deserialize(t)|trim|remove_blank_lines }}";
+           NAct KRaw "}";
+           NAct KRaw "static inline void {{ t | full_reference_name }}_initialize_({{ t | full_reference_name }}* const out_obj)";
+           NAct KRaw "{";
+           NAct KRaw "if (out_obj != {{ valuetoken_null }})";
+           NAct KRaw "{";
+           NAct KRaw "{{ typename_unsigned_length }} size_bytes = 0;";
+           NAct KRaw "const {{ typename_byte }} buf = 0;";
+           NAct KRaw "const {{ typename_error_type }} err = {{ t | full_reference_name }}_deserialize_(out_obj, &buf, &size_bytes);";
+           NAct KRaw "{{ assert('err >= 0') }}";
+           NAct KRaw "(void) err;";
+           NAct KRaw "}";
+           NAct KRaw "}"])]
+        [];
+       NFor "f in t.fields_except_padding"
+        [NIf [
+           ((CAtom "t.inner_type is UnionType"),
+            [NAct KRaw "static inline void {{ t | full_reference_name }}_select_{{ f.name }}_({{ t | full_reference_name }}* const obj)";
+             NAct KRaw "{";
+             NAct KRaw "if (obj != {{ valuetoken_null }})";
+             NAct KRaw "{";
+             NAct KRaw "obj->_tag_ = {{ loop.index0 }};";
+             NAct KRaw "}";
+             NAct KRaw "}";
+             NAct KRaw "static inline {{ typename_boolean }} {{ t | full_reference_name }}_is_{{ f.name }}_(const {{ t | full_reference_name }}* const obj)";
+             NAct KRaw "{";
+             NAct KRaw "return ((obj != {{ valuetoken_null }}) && (obj->_tag_ == {{ loop.index0 }}));";
+             NAct KRaw "}"])]
+          []]])]
+    []].
+
+Definition walker_cpp_decl_composite_type : list tnode :=
+  [NSet "from" "'_definitions.j2' import assert";
+   NIf [
+     ((CAtom "<ifuses> ""std_variant"""),
+      [])]
+    [];
+   NAct KRaw "{{ composite_type.doc | block_comment('cpp-doxygen', 0, 120) }}";
+   NAct KRaw "struct";
+   NIf [
+     ((CAtom "composite_type.deprecated"),
+      [NAct KRaw "[[deprecated(""{{ composite_type }} is reaching the end of its life; there may be a newer version available"")]]"])]
+    [];
+   NAct KRaw "{{ composite_type|short_reference_name }} final";
+   NAct KRaw "{";
+   NIf [
+     ((CAtom "options.ctor_convention != ConstructorConvention.DEFAULT"),
+      [NAct KRaw "using allocator_type = {{ options.allocator_type }}<void>;"])]
+    [];
+   NAct KRaw "struct _traits_";
+   NAct KRaw "{";
+   NAct KRaw "_traits_() = delete;";
+   NIf [
+     ((CAtom "T.has_fixed_port_id"),
+      [NAct KRaw "static constexpr bool HasFixedPortID = true;";
+       NAct KRaw "static constexpr {{ typename_unsigned_port }} FixedPortId = {{ T.fixed_port_id }}U;"])]
+    [NAct KRaw "static constexpr bool HasFixedPortID = false;"];
+   NIf [
+     ((CAtom "T is ServiceType"),
+      [NAct KRaw "static constexpr bool IsServiceType = true;";
+       NAct KRaw "static constexpr bool IsService = false;";
+       NAct KRaw "static constexpr bool IsRequest = {{ (composite_type == T.request_type) | string | lower }};";
+       NAct KRaw "static constexpr bool IsResponse = {{ (composite_type == T.response_type) | string | lower }};"])]
+    [NAct KRaw "static constexpr bool IsServiceType = false;"];
+   NJAssert (CAtom "composite_type.extent % 8 == 0");
+   NJAssert (CAtom "composite_type.inner_type.extent % 8 == 0");
+   NAct KRaw "static constexpr {{ typename_unsigned_length }} ExtentBytes = {{ composite_type.extent";
+   NAct KRaw "static constexpr {{ typename_unsigned_length }} SerializationBufferSizeBytes = {{ composite_type.inner_type.extent";
+   NAct KRaw "static_assert(ExtentBytes >= SerializationBufferSizeBytes, ""Internal constraint violation"");";
+   NAct KRaw "static_assert(ExtentBytes < (std::numeric_limits<{{ typename_unsigned_bit_length }}>::max() / 8U), ""This message is too large to be handled by the selected types"");";
+   NFor "field in composite_type.fields_except_padding"
+    [NIf [
+       ((CAtom "loop.first"),
+        [NAct KRaw "struct TypeOf";
+         NAct KRaw "{";
+         NAct KRaw "TypeOf() = delete;"])]
+      [];
+     NAct KRaw "using {{ field.name|id }} = {{ field.data_type | declaration }};";
+     NIf [
+       ((CAtom "loop.last"),
+        [NAct KRaw "};"])]
+      []];
+   NAct KRaw "};";
+   NIf [
+     ((CAtom "options.ctor_convention != ConstructorConvention.DEFAULT"),
+      [NIf [
+         ((CAtom "options.allocator_is_default_constructible"),
+          [NIf [
+             ((CAtom "composite_type.inner_type is UnionType"),
+              [NAct KRaw "{{ composite_type|short_reference_name }}() = default;"])]
+            [NAct KRaw "{{ composite_type|short_reference_name }}()";
+             NIf [
+               ((CAtom "composite_type.fields_except_padding"),
+                [NAct KRaw ":"])]
+              [];
+             NFor "field in composite_type.fields_except_padding"
+              [NAct KRaw "{{ field | id }}{{ field.data_type | default_value_initializer }}";
+               NIf [
+                 ((CNot (CAtom "loop.last")),
+                  [NAct KRaw ","])]
+                []];
+             NAct KRaw "{";
+             NAct KRaw "}"]])]
+        [];
+       NAct KRaw "explicit {{ composite_type|short_reference_name }}(const allocator_type& allocator)";
+       NIf [
+         ((CAtom "composite_type.fields_except_padding"),
+          [NAct KRaw ":"])]
+        [];
+       NIf [
+         ((CAtom "composite_type.inner_type is UnionType"),
+          [NAct KRaw "union_value{}"])]
+        [NFor "field in composite_type.fields_except_padding"
+          [NAct KRaw "{{ field | id }}{{ field | value_initializer(SpecialMethod.ALLOCATOR_CONSTRUCTOR) }}";
+           NIf [
+             ((CNot (CAtom "loop.last")),
+              [NAct KRaw ","])]
+            []]];
+       NAct KRaw "{";
+       NAct KRaw "(void)allocator;";
+       NAct KRaw "}";
+       NIf [
+         ((CAtom "composite_type.inner_type is not UnionType"),
+          [NIf [
+             ((CAtom "composite_type.fields_except_padding"),
+              [NAct KRaw "{{ composite_type | explicit_decorator(SpecialMethod.INITIALIZING_CONSTRUCTOR_WITH_ALLOCATOR) }}(";
+               NFor "field in composite_type.fields_except_padding"
+                [NAct KRaw "const _traits_::TypeOf::{{ field | id }}& {{ field | id }},"];
+               NAct KRaw "const allocator_type& allocator";
+               NIf [
+                 ((CAtom "options.allocator_is_default_constructible"),
+                  [NAct KRaw "= allocator_type()"])]
+                [];
+               NAct KRaw ")";
+               NIf [
+                 ((CAtom "composite_type.fields_except_padding"),
+                  [NAct KRaw ":"])]
+                [];
+               NFor "field in composite_type.fields_except_padding"
+                [NAct KRaw "{{ field | id }}{{ field | value_initializer(SpecialMethod.INITIALIZING_CONSTRUCTOR_WITH_ALLOCATOR) }}";
+                 NIf [
+                   ((CNot (CAtom "loop.last")),
+                    [NAct KRaw ","])]
+                  []];
+               NAct KRaw "{";
+               NAct KRaw "(void)allocator;";
+               NAct KRaw "}"])]
+            []])]
+        [];
+       NAct KRaw "{{ composite_type|short_reference_name }}(const {{ composite_type|short_reference_name }}&) = default;";
+       NAct KRaw "{{ composite_type|short_reference_name }}(const {{ composite_type|short_reference_name }}& rhs, const allocator_type& allocator)";
+       NIf [
+         ((CAtom "composite_type.fields_except_padding"),
+          [NAct KRaw ":"])]
+        [];
+       NIf [
+         ((CAtom "composite_type.inner_type is UnionType"),
+          [NAct KRaw "union_value{rhs.union_value}"])]
+        [NFor "field in composite_type.fields_except_padding"
+          [NAct KRaw "{{ field | id }}{{ field | value_initializer(SpecialMethod.COPY_CONSTRUCTOR_WITH_ALLOCATOR) }}";
+           NIf [
+             ((CNot (CAtom "loop.last")),
+              [NAct KRaw ","])]
+            []]];
+       NAct KRaw "{";
+       NAct KRaw "(void)rhs;";
+       NAct KRaw "(void)allocator;";
+       NAct KRaw "}";
+       NAct KRaw "{{ composite_type|short_reference_name }}({{ composite_type|short_reference_name }}&&) = default;";
+       NAct KRaw "{{ composite_type|short_reference_name }}({{ composite_type|short_reference_name }}&& rhs, const allocator_type& allocator)";
+       NIf [
+         ((CAtom "composite_type.fields_except_padding"),
+          [NAct KRaw ":"])]
+        [];
+       NIf [
+         ((CAtom "composite_type.inner_type is UnionType"),
+          [NAct KRaw "union_value{std::move(rhs.union_value)}"])]
+        [NFor "field in composite_type.fields_except_padding"
+          [NAct KRaw "{{ field | id }}{{ field | value_initializer(SpecialMethod.MOVE_CONSTRUCTOR_WITH_ALLOCATOR) }}";
+           NIf [
+             ((CNot (CAtom "loop.last")),
+              [NAct KRaw ","])]
+            []]];
+       NAct KRaw "{";
+       NAct KRaw "(void)rhs;";
+       NAct KRaw "(void)allocator;";
+       NAct KRaw "}";
+       NAct KRaw "{{ composite_type|short_reference_name }}& operator=(const {{ composite_type|short_reference_name }}&) = default;";
+       NAct KRaw "{{ composite_type|short_reference_name }}& operator=({{ composite_type|short_reference_name }}&&) = default;";
+       NAct KRaw "~{{ composite_type|short_reference_name }}() = default;"])]
+    [];
+   NFor "constant in composite_type.constants"
+    [NIf [
+       ((CAtom "loop.first"),
+        [])]
+      [];
+     NAct KRaw "{{ constant.doc | block_comment('cpp-doxygen', 4, 120) }}";
+     NAct KRaw "static constexpr {{ constant.data_type | declaration }} {{ constant.name | id }} = {{ constant | constant_value }};"];
+   NIf [
+     ((CAtom "composite_type.inner_type is UnionType"),
+      [NIf [
+         ((CAtom "<ifuses> ""std_variant"""),
+          [NSet "include" "'_fields_as_variant.j2'"])]
+        [NSet "include" "'_fields_as_union.j2'"];
+       NFor "field in composite_type.fields_except_padding"
+        [NAct KRaw "bool is_{{ field.name|id }}() const {";
+         NAct KRaw "return VariantType::IndexOf::{{ field.name|id }} == union_value.index();";
+         NAct KRaw "}";
+         NAct KRaw "typename std::add_pointer<_traits_::TypeOf::{{ field.name|id }}>::type get_{{ field.name|id }}_if(){";
+         NAct KRaw "return VariantType::get_if<VariantType::IndexOf::{{ field.name|id }}>(&union_value);";
+         NAct KRaw "}";
+         NAct KRaw "typename std::add_pointer<const _traits_::TypeOf::{{ field.name|id }}>::type get_{{ field.name|id }}_if() const{";
+         NAct KRaw "return VariantType::get_if<VariantType::IndexOf::{{ field.name|id }}>(&union_value);";
+         NAct KRaw "}";
+         NAct KRaw "typename std::add_lvalue_reference<_traits_::TypeOf::{{ field.name|id }}>::type get_{{ field.name|id }}(){";
+         NAct KRaw "{{ assert('is_%s()' | format(field.name | id)) }}";
+         NAct KRaw "return *VariantType::get_if<VariantType::IndexOf::{{ field.name|id }}>(&union_value);";
+         NAct KRaw "}";
+         NAct KRaw "typename std::add_lvalue_reference<const _traits_::TypeOf::{{ field.name|id }}>::type get_{{ field.name|id }}() const{";
+         NAct KRaw "{{ assert('is_%s()' | format(field.name | id)) }}";
+         NAct KRaw "return *VariantType::get_if<VariantType::IndexOf::{{ field.name|id }}>(&union_value);";
+         NAct KRaw "}";
+         NAct KRaw "template<class... Args> typename std::add_lvalue_reference<_traits_::TypeOf::{{ field.name|id }}>::type";
+         NAct KRaw "set_{{ field.name|id }}(Args&&...v){";
+         NAct KRaw "return union_value.emplace<VariantType::IndexOf::{{ field.name|id }}>(v...);";
+         NAct KRaw "}"]])]
+    [NSet "include" "'_fields.j2'"];
+   NAct KRaw "};";
+   NIf [
+     ((CNot (CAtom "nunavut.support.omit")),
+      [NAct KRaw "inline nunavut::support::SerializeResult serialize(const {{ composite_type|short_reference_name }}& obj,";
+       NAct KRaw "nunavut::support::bitspan out_buffer)";
+       NAct KRaw "{";
+       NSet "from" "'serialization.j2' import serialize";
+       NAct KRaw "{{ serialize(composite_type) | trim | remove_blank_lines }}";
+       NAct KRaw "}";
+       NAct KRaw "inline nunavut::support::SerializeResult deserialize({{ composite_type|short_reference_name }}& obj,";
+       NAct KRaw "nunavut::support::const_bitspan in_buffer)";
+       NAct KRaw "{";
+       NSet "from" "'deserialization.j2' import deserialize";
+       NAct KRaw "{{ deserialize(composite_type) | trim | remove_blank_lines }}";
+       NAct KRaw "}"])]
+    []].
+
+Definition walker_cpp_decl_fields : list tnode :=
+  [NFor "field in composite_type.fields_except_padding"
+    [NIf [
+       ((CAtom "loop.first"),
+        [])]
+      [];
+     NAct KRaw "{{ field.doc | block_comment('cpp-doxygen', 4, 120) }}";
+     NIf [
+       ((CAtom "options.ctor_convention != ConstructorConvention.DEFAULT"),
+        [NAct KRaw "_traits_::TypeOf::{{ field.name|id }} {{ field | id }};"])]
+      [NAct KRaw "_traits_::TypeOf::{{ field.name|id }} {{ field | id }}{{ field.data_type | default_value_initializer }};"]]].
+
+Definition walker_cpp_decl_fields_as_union : list tnode :=
+  [NAct KRaw "class VariantType final";
+   NAct KRaw "{";
+   NAct KRaw "std::size_t tag_;";
+   NAct KRaw "union internal_union_t";
+   NAct KRaw "{";
+   NFor "field in composite_type.fields_except_padding"
+    [NAct KRaw "{{ field.doc | block_comment('cpp-doxygen', 12, 120) }}";
+     NAct KRaw "std::aligned_storage<sizeof({{ field.data_type | declaration }}), alignof({{ field.data_type | declaration }})>::type {{ field.name | id }};"];
+   NAct KRaw "} internal_union_value_;";
+   NAct KRaw "public:";
+   NAct KRaw "static const constexpr std::size_t variant_npos = std::numeric_limits<std::size_t>::max();";
+   NAct KRaw "VariantType()";
+   NAct KRaw ": tag_(0)";
+   NAct KRaw ", internal_union_value_()";
+   NAct KRaw "{";
+   NAct KRaw "emplace<0>();";
+   NAct KRaw "}";
+   NAct KRaw "VariantType(const VariantType& rhs)";
+   NAct KRaw ": tag_(variant_npos)";
+   NAct KRaw ", internal_union_value_()";
+   NAct KRaw "{";
+   NFor "field in composite_type.fields_except_padding"
+    [NIf [
+       ((CNot (CAtom "loop.first")),
+        [NAct KRaw "else"])]
+      [];
+     NAct KRaw "if(rhs.tag_ == {{ loop.index0 }})";
+     NAct KRaw "{";
+     NAct KRaw "do_copy<{{ loop.index0 }}>(";
+     NAct KRaw "*reinterpret_cast<std::add_pointer<const {{ field.data_type | declaration }}>::type>(&rhs.internal_union_value_.{{ field.name | id }})";
+     NAct KRaw ");";
+     NAct KRaw "}"];
+   NAct KRaw "tag_ = rhs.tag_;";
+   NAct KRaw "}";
+   NAct KRaw "VariantType(VariantType&& rhs)";
+   NAct KRaw ": tag_(variant_npos)";
+   NAct KRaw ", internal_union_value_()";
+   NAct KRaw "{";
+   NFor "field in composite_type.fields_except_padding"
+    [NIf [
+       ((CNot (CAtom "loop.first")),
+        [NAct KRaw "else"])]
+      [];
+     NAct KRaw "if(rhs.tag_ == {{ loop.index0 }})";
+     NAct KRaw "{";
+     NAct KRaw "do_emplace<{{ loop.index0 }}>(";
+     NAct KRaw "std::forward<{{ field.data_type | declaration }}>(";
+     NAct KRaw "*reinterpret_cast<std::add_pointer<{{ field.data_type | declaration }}>::type>(&rhs.internal_union_value_.{{ field.name | id }})";
+     NAct KRaw ")";
+     NAct KRaw ");";
+     NAct KRaw "}"];
+   NAct KRaw "tag_ = rhs.tag_;";
+   NAct KRaw "}";
+   NAct KRaw "VariantType& operator=(const VariantType& rhs)";
+   NAct KRaw "{";
+   NAct KRaw "destroy_current();";
+   NFor "field in composite_type.fields_except_padding"
+    [NIf [
+       ((CNot (CAtom "loop.first")),
+        [NAct KRaw "else"])]
+      [];
+     NAct KRaw "if(rhs.tag_ == {{ loop.index0 }})";
+     NAct KRaw "{";
+     NAct KRaw "do_copy<{{ loop.index0 }}>(";
+     NAct KRaw "*reinterpret_cast<std::add_pointer<const {{ field.data_type | declaration }}>::type>(&rhs.internal_union_value_.{{ field.name | id }})";
+     NAct KRaw ");";
+     NAct KRaw "}"];
+   NAct KRaw "tag_ = rhs.tag_;";
+   NAct KRaw "return *this;";
+   NAct KRaw "}";
+   NAct KRaw "VariantType& operator=(VariantType&& rhs)";
+   NAct KRaw "{";
+   NAct KRaw "destroy_current();";
+   NFor "field in composite_type.fields_except_padding"
+    [NIf [
+       ((CNot (CAtom "loop.first")),
+        [NAct KRaw "else"])]
+      [];
+     NAct KRaw "if(rhs.tag_ == {{ loop.index0 }})";
+     NAct KRaw "{";
+     NAct KRaw "do_emplace<{{ loop.index0 }}>(";
+     NAct KRaw "std::forward<{{ field.data_type | declaration }}>(";
+     NAct KRaw "*reinterpret_cast<std::add_pointer<{{ field.data_type | declaration }}>::type>(&rhs.internal_union_value_.{{ field.name | id }})";
+     NAct KRaw ")";
+     NAct KRaw ");";
+     NAct KRaw "}"];
+   NAct KRaw "tag_ = rhs.tag_;";
+   NAct KRaw "return *this;";
+   NAct KRaw "}";
+   NAct KRaw "~VariantType()";
+   NAct KRaw "{";
+   NAct KRaw "destroy_current();";
+   NAct KRaw "}";
+   NAct KRaw "size_t index() const{";
+   NAct KRaw "return tag_;";
+   NAct KRaw "}";
+   NAct KRaw "struct IndexOf final";
+   NAct KRaw "{";
+   NAct KRaw "IndexOf() = delete;";
+   NFor "field in composite_type.fields_except_padding"
+    [NAct KRaw "static constexpr const std::size_t {{ field.name | id }} = {{ loop.index0 }}U;"];
+   NAct KRaw "};";
+   NAct KRaw "static constexpr const std::size_t MAX_INDEX = {{ composite_type.fields_except_padding | length }}U;";
+   NAct KRaw "template<std::size_t I, class...Types> struct alternative;";
+   NFor "field in composite_type.fields_except_padding"
+    [NAct KRaw "template<class...Types> struct alternative<{{ loop.index0 }}U, Types...>";
+     NAct KRaw "{";
+     NAct KRaw "using type = {{ field.data_type | declaration }};";
+     NAct KRaw "static constexpr auto pointer = &VariantType::internal_union_t::{{ field.name | id }};";
+     NAct KRaw "};"];
+   NAct KRaw "template<std::size_t I, class... Args> typename VariantType::alternative<I, VariantType>::type& emplace(Args&&... v)";
+   NAct KRaw "{";
+   NAct KRaw "destroy_current();";
+   NAct KRaw "typename alternative<I>::type& result = do_emplace<I>(v...);";
+   NAct KRaw "tag_ = I;";
+   NAct KRaw "return result;";
+   NAct KRaw "}";
+   NAct KRaw "template<std::size_t I, class... Types>";
+   NAct KRaw "static constexpr typename alternative<I, VariantType>::type* get_if(VariantType* v) noexcept";
+   NAct KRaw "{";
+   NAct KRaw "return (v) ? v->do_get_if<I>() : nullptr;";
+   NAct KRaw "}";
+   NAct KRaw "template<std::size_t I, class... Types>";
+   NAct KRaw "static constexpr const typename alternative<I, VariantType>::type* get_if(const VariantType* v) noexcept";
+   NAct KRaw "{";
+   NAct KRaw "return (v) ? v->do_get_if_const<I>() : nullptr;";
+   NAct KRaw "}";
+   NAct KRaw "private:";
+   NAct KRaw "template<std::size_t I, class... Args> typename VariantType::alternative<I, VariantType>::type& do_emplace(Args&&... v)";
+   NAct KRaw "{";
+   NAct KRaw "return *(new (&(internal_union_value_.*(alternative<I>::pointer)) ) typename alternative<I>::type(std::forward<Args>(v)...));";
+   NAct KRaw "}";
+   NAct KRaw "template<std::size_t I, class... Args> typename VariantType::alternative<I, VariantType>::type& do_copy(const Args&... v)";
+   NAct KRaw "{";
+   NAct KRaw "return *(new (&(internal_union_value_.*(alternative<I>::pointer)) ) typename alternative<I>::type(typename alternative<I>::type(v...)));";
+   NAct KRaw "}";
+   NAct KRaw "template<std::size_t I, class... Types>";
+   NAct KRaw "constexpr typename VariantType::alternative<I, VariantType>::type* do_get_if() noexcept";
+   NAct KRaw "{";
+   NAct KRaw "return (tag_ == I) ? reinterpret_cast<typename std::add_pointer<typename VariantType::alternative<I>::type>::type>(&(internal_union_value_.*(alternative<I>::pointer))) : nullptr;";
+   NAct KRaw "}";
+   NAct KRaw "template<std::size_t I, class... Types>";
+   NAct KRaw "constexpr const typename VariantType::alternative<I, VariantType>::type* do_get_if_const() const noexcept";
+   NAct KRaw "{";
+   NAct KRaw "return (tag_ == I) ? reinterpret_cast<typename std::add_pointer<const typename VariantType::alternative<I>::type>::type>(&(internal_union_value_.*(alternative<I>::pointer))) : nullptr;";
+   NAct KRaw "}";
+   NAct KRaw "void destroy_current()";
+   NAct KRaw "{";
+   NFor "field in composite_type.fields_except_padding"
+    [NIf [
+       ((CAtom "field is not PrimitiveType"),
+        [NAct KRaw "if (tag_ == {{ loop.index0 }})";
+         NAct KRaw "{";
+         NAct KRaw "reinterpret_cast<{{ field.data_type | declaration }}*>(std::addressof(internal_union_value_.{{ field.name | id }}))->{{ field.data_type | destructor_name }}();";
+         NAct KRaw "}"])]
+      []];
+   NAct KRaw "}";
+   NAct KRaw "};";
+   NAct KRaw "VariantType union_value;"].
+
+Definition walker_cpp_decl_fields_as_variant : list tnode :=
+  [NAct KRaw "class VariantType final : public std::variant<";
+   NFor "field in composite_type.fields_except_padding"
+    [NAct KRaw "{{ field.doc | block_comment('cpp-doxygen', 8, 120) }}";
+     NAct KRaw "_traits_::TypeOf::{{ field.name|id }}";
+     NIf [
+       ((CNot (CAtom "loop.last")),
+        [NAct KRaw ","])]
+      []];
+   NAct KRaw ">";
+   NAct KRaw "{";
+   NAct KRaw "public:";
+   NAct KRaw "static const constexpr std::size_t variant_npos = std::variant_npos;";
+   NAct KRaw "struct IndexOf final";
+   NAct KRaw "{";
+   NAct KRaw "IndexOf() = delete;";
+   NFor "field in composite_type.fields_except_padding"
+    [NAct KRaw "static constexpr const std::size_t {{ field.name | id }} = {{ loop.index0 }}U;"];
+   NAct KRaw "};";
+   NAct KRaw "static constexpr const std::size_t MAX_INDEX = {{ composite_type.fields_except_padding | length }}U;";
+   NAct KRaw "template<size_t I, typename T>";
+   NAct KRaw "struct alternative;";
+   NAct KRaw "template<size_t I, typename... Types>";
+   NAct KRaw "struct alternative<I, std::variant<Types...>> final";
+   NAct KRaw "{";
+   NAct KRaw "using type = typename std::variant_alternative<I, std::variant<Types...>>::type;";
+   NAct KRaw "};";
+   NAct KRaw "template<size_t I, typename T>";
+   NAct KRaw "struct alternative<I, const T> final";
+   NAct KRaw "{";
+   NAct KRaw "using type = std::add_const_t<typename std::variant_alternative<I, T>::type>;";
+   NAct KRaw "};";
+   NAct KRaw "template<std::size_t I, class... Types>";
+   NAct KRaw "static constexpr typename alternative<I, std::variant<Types...>>::type* get_if(std::variant<Types...>* v) noexcept";
+   NAct KRaw "{";
+   NAct KRaw "return std::get_if<I, Types...>(v);";
+   NAct KRaw "}";
+   NAct KRaw "template<std::size_t I, class... Types>";
+   NAct KRaw "static constexpr const typename alternative<I, std::variant<Types...>>::type* get_if(const std::variant<Types...>* v) noexcept";
+   NAct KRaw "{";
+   NAct KRaw "return std::get_if<I, Types...>(v);";
+   NAct KRaw "}";
+   NAct KRaw "};";
+   NAct KRaw "VariantType union_value;"].
+
+Definition walker_py_decl_base : list tnode :=
+  [NIf [
+     ((CAtom "nunavut.embed_auditing_info"),
+      [])]
+    [];
+   NJAssert (CAtom "options.enable_serialization_asserts");
+   NSet "ARRAY_PRINT_SUMMARIZATION_THRESHOLD" "100";
+   NAct KRaw "from __future__ import annotations";
+   NAct KRaw "from nunavut_support import Serializer as _Serializer_, Deserializer as _Deserializer_, API_VERSION as _NSAPIV_";
+   NAct KRaw "import numpy as _np_";
+   NAct KRaw "from numpy.typing import NDArray as _NDArray_";
+   NAct KRaw "import pydsdl as _pydsdl_";
+   NIf [
+     ((CAtom "T.deprecated"),
+      [NAct KRaw "import warnings as _warnings_"])]
+    [];
+   NFor "n in T|imports"
+    [NAct KRaw "import {{ n }}"];
+   NAct KRaw "if _NSAPIV_[0] != {{ nunavut.support.version[0] }}:";
+   NAct KRaw "raise RuntimeError(";
+   NAct KRaw "f""Incompatible Nunavut support API version: support { _NSAPIV_ }, package {{ nunavut.support.version }}""";
+   NAct KRaw ")";
+   NSet "from" "'serialization.j2' import serialize";
+   NSet "from" "'deserialization.j2' import deserialize";
+   NIf [
+     ((CAtom "<macro> strict_type_annotation(t)"),
+      [NIf [
+         ((CAtom "t is BooleanType"),
+          [NAct KRaw "bool"]);
+         ((CAtom "t is IntegerType"),
+          [NAct KRaw "int"]);
+         ((CAtom "t is FloatType"),
+          [NAct KRaw "float"]);
+         ((CAtom "t is ArrayType"),
+          [NAct KRaw "_NDArray_[{{ t.element_type|numpy_scalar_type }}]"]);
+         ((CAtom "t is CompositeType"),
+          [NAct KRaw "{{ t|full_reference_name }}"])]
+        [NJAssert (CAtom "False")]])]
+    [];
+   NIf [
+     ((CAtom "<macro> relaxed_type_annotation(t)"),
+      [NIf [
+         ((CAtom "t is BooleanType"),
+          [NAct KRaw "bool"]);
+         ((CAtom "t is IntegerType"),
+          [NAct KRaw "int | {{ t|numpy_scalar_type }}"]);
+         ((CAtom "t is FloatType"),
+          [NAct KRaw "int | float | {{ t|numpy_scalar_type }}"]);
+         ((CAtom "t is CompositeType"),
+          [NAct KRaw "{{ t|full_reference_name }}"]);
+         ((CAtom "t is ArrayType"),
+          [NIf [
+             ((CAnd (CAtom "t.element_type is UnsignedIntegerType") (CAtom "t.element_type.bit_length <= 8")),
+              [NAct KRaw "_NDArray_[{{ t.element_type|numpy_scalar_type }}] | list[int] | memoryview | bytes | bytearray";
+               NIf [
+                 ((CAtom "t.string_like"),
+                  [NAct KRaw "| str"])]
+                []])]
+            [NAct KRaw "_NDArray_[{{ t.element_type|numpy_scalar_type }}] | list[{{ strict_type_annotation(t.element_type) }}]"]])]
+        [NJAssert (CAtom "False")]])]
+    [];
+   NIf [
+     ((CAtom "<macro> assign_array(f, src)"),
+      [NSet "t" "f.data_type";
+       NIf [
+         ((CAtom "t is FixedLengthArrayType"),
+          [NSet "cmp" "'=='"]);
+         ((CAtom "t is VariableLengthArrayType"),
+          [NSet "cmp" "'<='"])]
+        [NJAssert (CAtom "False")];
+       NIf [
+         ((CAtom "t.string_like"),
+          [NAct KRaw "{{ src }} = {{ src }}.encode() if isinstance({{ src }}, str) else {{ src }}"])]
+        [];
+       NIf [
+         ((CAnd (CAtom "t.element_type is UnsignedIntegerType") (CAtom "t.element_type.bit_length <= 8")),
+          [NAct KRaw "if isinstance({{ src }}, (bytes, bytearray)) and len({{ src }}) {{ cmp }} {{ t.capacity }}:";
+           NAct KRaw "_a_ = _np_.frombuffer({{ src }}, {{ t.element_type|numpy_scalar_type }})";
+           NAct KRaw "el"])]
+        [];
+       NAct KRaw "if isinstance({{ src }}, _np_.ndarray) and {{ src }}.dtype == {{ t.element_type|numpy_scalar_type }} and {{ src }}.ndim == 1 and {{ src }}.size {{ cmp }} {{ t.capacity }}:";
+       NAct KRaw "_a_ = {{ src }}";
+       NAct KRaw "else:";
+       NIf [
+         ((CAtom "t.element_type is IntegerType"),
+          [NAct KRaw "_s_ = _np_.asarray({{ src }})";
+           NAct KRaw "if _s_.size and _s_.dtype.kind in 'iufO' and not ({{ t.element_type.inclusive_value_range.min }} <= _s_.min() and _s_.max() <= {{ t.element_type.inclusive_value_range.max }}):";
+           NAct KRaw "raise ValueError(f'{{ f.name }}: array element is not in [{{ t.element_type.inclusive_value_range.min }}, {{ t.element_type.inclusive_value_range.max }}]')"])]
+        [];
+       NAct KRaw "_a_ = _np_.array({{ src }}, {{ t.element_type|numpy_scalar_type }}).flatten()";
+       NAct KRaw "if not _a_.size {{ cmp }} {{ t.capacity }}:";
+       NAct KRaw "raise ValueError(f'{{ f.name }}: invalid array length: not {_a_.size} {{ cmp }} {{ t.capacity }}')";
+       NIf [
+         ((CAnd (CAtom "t.element_type is FloatType") (CAtom "t.element_type.bit_length < 64")),
+          [NAct KRaw "_x_ = _np_.abs(_np_.asarray({{ src }}, _np_.float64))";
+           NAct KRaw "if (_np_.isfinite(_x_) & (_x_ > {{ t.element_type.inclusive_value_range.max }}.0)).any():";
+           NAct KRaw "raise ValueError(f'{{ f.name }}: finite array element is not in [{{ t.element_type.inclusive_value_range.min }}, {{ t.element_type.inclusive_value_range.max }}]')"])]
+        [];
+       NIf [
+         ((CAnd (CAtom "t.element_type is IntegerType") (CAtom "t.element_type.bit_length not in (8, 16, 32, 64)")),
+          [NAct KRaw "if _a_.size and not ({{ t.element_type.inclusive_value_range.min }} <= int(_a_.min()) and int(_a_.max()) <= {{ t.element_type.inclusive_value_range.max }}):";
+           NAct KRaw "raise ValueError(f'{{ f.name }}: array element is not in [{{ t.element_type.inclusive_value_range.min }}, {{ t.element_type.inclusive_value_range.max }}]')"])]
+        [];
+       NAct KRaw "self._{{ f|id }} = _a_";
+       NAct KRaw "assert isinstance(self._{{ f|id }}, _np_.ndarray)";
+       NAct KRaw "assert self._{{ f|id }}.dtype == {{ t.element_type|numpy_scalar_type }}";
+       NAct KRaw "assert self._{{ f|id }}.ndim == 1";
+       NAct KRaw "assert len(self._{{ f|id }}) {{ cmp }} {{ t.capacity }}"])]
+    [];
+   NIf [
+     ((CAtom "<macro> printable_field_representation(f)"),
+      [NIf [
+         ((CAtom "f.data_type is ArrayType"),
+          [NIf [
+             ((CAtom "f.data_type.string_like"),
+              [NAct KRaw "repr(bytes(self.{{ f|id }}))[1:]"])]
+            [NAct KRaw "_np_.array2string(self.{{ f|id }}, separator=',', edgeitems=10, threshold={{ ARRAY_PRINT_SUMMARIZATION_THRESHOLD }}, max_line_width={{ ARRAY_PRINT_SUMMARIZATION_THRESHOLD * 10000 }})"]])]
+        [NAct KRaw "self.{{ f|id }}"]])]
+    [];
+   NIf [
+     ((CAtom "<macro> data_schema(name, type, parent_class_name=None)"),
+      [NSet "full_class_name" "((parent_class_name + '.') if parent_class_name else '') + name";
+       NAct KRaw "class {{ name }}:";
+       NAct KRaw """""""";
+       NAct KRaw "Generated property settings use relaxed type signatures, accepting a large variety of";
+       NAct KRaw "possible representations of the value, which are automatically converted to a well-defined";
+       NAct KRaw "internal representation. When accessing a property, this strict well-defined internal";
+       NAct KRaw "representation is always returned. The implicit strictification enables more precise static";
+       NAct KRaw "type analysis.";
+       NAct KRaw "The value returned by the __repr__() method may be invariant to some of the field values,";
+       NAct KRaw "and its format is not guaranteed to be stable. Therefore, the returned string representation";
+       NAct KRaw "can be used only for displaying purposes; any kind of automation build on top of that will";
+       NAct KRaw "be fragile and prone to mismaintenance.";
+       NAct KRaw """""""";
+       NFor "c in type.constants"
+        [NSet "target" "{{ c|id }}: {{ ''.ljust(type.constants|longest_id_length - c|id|length) }}{{ strict_type_annotation(c.data_type) }}";
+         NIf [
+           ((CAtom "c.data_type is BooleanType"),
+            [NAct KRaw "{{ target }} = {{ c.value.native_value }}"]);
+           ((CAtom "c.data_type is IntegerType"),
+            [NAct KRaw "{{ target }} = {{ c.value.as_native_integer() }}"]);
+           ((CAtom "c.data_type is FloatType"),
+            [NAct KRaw "{{ target }} = {{ c.value.native_value.numerator }} / {{ c.value.native_value.denominator }}"])]
+          [NJAssert (CAtom "False")];
+         NAct KRaw "{{ '\n' if loop.last else '' }}"];
+       NAct KRaw "def __init__(self";
+       NIf [
+         ((CAtom "type.inner_type is UnionType"),
+          [NAct KRaw ", *"])]
+        [];
+       NFor "f in type.fields_except_padding"
+        [NAct KRaw ",";
+         NAct KRaw "{{ f|id }}: {{ ''.ljust(type.fields|longest_id_length - f|id|length) }}";
+         NAct KRaw "None | {{ relaxed_type_annotation(f.data_type) }} = None"];
+       NAct KRaw ") -> None:";
+       NAct KRaw """""""";
+       NAct KRaw "{{ type.full_name }}.{{ type.version.major }}.{{ type.version.minor }}";
+       NAct KRaw "Raises ValueError if any of the primitive values are outside the permitted range, regardless of the cast mode.";
+       NIf [
+         ((CAtom "type.inner_type is UnionType"),
+          [NAct KRaw "If no parameters are provided, the first field will be default-initialized and selected.";
+           NAct KRaw "If one parameter is provided, it will be used to initialize and select the field under the same name.";
+           NAct KRaw "If more than one parameter is provided, a ValueError will be raised."])]
+        [];
+       NFor "f in type.fields_except_padding"
+        [NAct KRaw ":param {{ f|id }}: {{ ''.ljust(type.fields|longest_id_length - f|id|length) }}{{ f }}"];
+       NAct KRaw """""""";
+       NIf [
+         ((CAtom "type.deprecated"),
+          [NAct KRaw "_warnings_.warn('Data type {{ type }} is deprecated', DeprecationWarning)"])]
+        [];
+       NIf [
+         ((CAtom "type.inner_type is not UnionType"),
+          [NFor "f in type.fields_except_padding"
+            [NAct KRaw "self._{{ f|id }}: {{ ''.ljust(type.fields|longest_id_length - f|id|length) }}";
+             NAct KRaw "{{ strict_type_annotation(f.data_type) }}";
+             NAct KRaw "{{ '\n' if loop.last else '' }}"];
+           NFor "f in type.fields_except_padding"
+            [NIf [
+               ((CAtom "f.data_type is BooleanType"),
+                [NAct KRaw "self.{{ f|id }} = {{ f|id }} if {{ f|id }} is not None else False"]);
+               ((CAtom "f.data_type is IntegerType"),
+                [NAct KRaw "self.{{ f|id }} = {{ f|id }} if {{ f|id }} is not None else 0"]);
+               ((CAtom "f.data_type is FloatType"),
+                [NAct KRaw "self.{{ f|id }} = {{ f|id }} if {{ f|id }} is not None else 0.0"]);
+               ((CAtom "f.data_type is FixedLengthArrayType"),
+                [NAct KRaw "if {{ f|id }} is None:";
+                 NIf [
+                   ((CAtom "f.data_type.element_type is CompositeType"),
+                    [NAct KRaw "self.{{ f|id }} = _np_.array([{{ f.data_type.element_type|full_reference_name }}() for _ in range({{ f.data_type.capacity }})], {{ f.data_type.element_type|numpy_scalar_type }})"])]
+                  [NAct KRaw "self.{{ f|id }} = _np_.zeros({{ f.data_type.capacity }}, {{ f.data_type.element_type|numpy_scalar_type }})"];
+                 NAct KRaw "else:";
+                 NAct KRaw "{{ assign_array(f, f|id) | indent(8) }}"]);
+               ((CAtom "f.data_type is VariableLengthArrayType"),
+                [NAct KRaw "if {{ f|id }} is None:";
+                 NAct KRaw "self.{{ f|id }} = _np_.array([], {{ f.data_type.element_type|numpy_scalar_type }})";
+                 NAct KRaw "else:";
+                 NAct KRaw "{{ assign_array(f, f|id) | indent(8) }}"]);
+               ((CAtom "f.data_type is CompositeType"),
+                [NAct KRaw "if {{ f|id }} is None:";
+                 NAct KRaw "self.{{ f|id }} = {{ f.data_type|full_reference_name }}()";
+                 NAct KRaw "elif isinstance({{ f|id }}, {{ f.data_type|full_reference_name }}):";
+                 NAct KRaw "self.{{ f|id }} = {{ f|id }}";
+                 NAct KRaw "else:";
+                 NAct KRaw "raise ValueError(f'{{ f|id }}: expected {{ f.data_type|full_reference_name }} '";
+                 NAct KRaw "f'got {type({{ f|id }}).__name__}')"])]
+              [NJAssert (CAtom "False")]];
+           NIf [
+             ((CAtom "<empty> f in type.fields_except_padding"),
+              [NAct KRaw "pass"])]
+            []])]
+        [NFor "f in type.fields"
+          [NAct KRaw "self._{{ f|id }}: {{ ''.ljust(type.fields|longest_id_length - f|id|length) }}";
+           NAct KRaw "None | {{ strict_type_annotation(f.data_type) }} = None"];
+         NAct KRaw "_init_cnt_: int = 0";
+         NFor "f in type.fields"
+          [NAct KRaw "if {{ f|id }} is not None:";
+           NAct KRaw "_init_cnt_ += 1";
+           NAct KRaw "self.{{ f|id }} = {{ f|id }}"];
+         NAct KRaw "if _init_cnt_ == 0:";
+         NSet "f" "type.fields[0]";
+         NIf [
+           ((CAtom "f.data_type is BooleanType"),
+            [NAct KRaw "self.{{ f|id }} = False"]);
+           ((CAtom "f.data_type is IntegerType"),
+            [NAct KRaw "self.{{ f|id }} = 0"]);
+           ((CAtom "f.data_type is FloatType"),
+            [NAct KRaw "self.{{ f|id }} = 0.0"]);
+           ((CAtom "f.data_type is FixedLengthArrayType"),
+            [NIf [
+               ((CAtom "f.data_type.element_type is CompositeType"),
+                [NAct KRaw "self.{{ f|id }} = _np_.array([{{ f.data_type.element_type|full_reference_name }}() for _ in range({{ f.data_type.capacity }})], {{ f.data_type.element_type|numpy_scalar_type }})"])]
+              [NAct KRaw "self.{{ f|id }} = _np_.zeros({{ f.data_type.capacity }}, {{ f.data_type.element_type|numpy_scalar_type }})"]]);
+           ((CAtom "f.data_type is VariableLengthArrayType"),
+            [NAct KRaw "self.{{ f|id }} = _np_.array([], {{ f.data_type.element_type|numpy_scalar_type }})"]);
+           ((CAtom "f.data_type is CompositeType"),
+            [NAct KRaw "self.{{ f|id }} = {{ f.data_type|full_reference_name }}()"])]
+          [NJAssert (CAtom "False")];
+         NAct KRaw "elif _init_cnt_ == 1:";
+         NAct KRaw "pass";
+         NAct KRaw "else:";
+         NAct KRaw "raise ValueError(f'Union cannot hold values of more than one field')"];
+       NFor "f in type.fields_except_padding"
+        [NAct KRaw "@property";
+         NAct KRaw "def {{ f|id }}(self) -> {{ ""None | "" * (type.inner_type is UnionType) }}{{ strict_type_annotation(f.data_type) }}:";
+         NAct KRaw """""""";
+         NAct KRaw "{{ f }}";
+         NIf [
+           ((CAnd (CAtom "f.data_type is VariableLengthArrayType") (CAtom "f.data_type.string_like")),
+            [NAct KRaw "DSDL does not support strings natively yet. To interpret this array as a string,";
+             NAct KRaw "use tobytes() to convert the NumPy array to bytes, and then decode() to convert bytes to string:";
+             NAct KRaw ".{{ f|id }}.tobytes().decode()";
+             NAct KRaw "When assigning a string to this property, no manual conversion is necessary (it will happen automatically)."])]
+          [];
+         NAct KRaw "The setter raises ValueError if the supplied value exceeds the valid range or otherwise inapplicable.";
+         NAct KRaw """""""";
+         NAct KRaw "return self._{{ f|id }}";
+         NAct KRaw "@{{ f|id }}.setter";
+         NAct KRaw "def {{ f|id }}(self, x: {{ relaxed_type_annotation(f.data_type) }}) -> None:";
+         NIf [
+           ((CAtom "f.data_type is BooleanType"),
+            [NAct KRaw "self._{{ f|id }} = bool(x)"]);
+           ((CAtom "f.data_type is IntegerType"),
+            [NAct KRaw """""""Raises ValueError if the value is outside of the permitted range, regardless of the cast mode.""""""";
+             NAct KRaw "x = int(x)";
+             NAct KRaw "if {{ f.data_type.inclusive_value_range.min }} <= x <= {{ f.data_type.inclusive_value_range.max }}:";
+             NAct KRaw "self._{{ f|id }} = x";
+             NAct KRaw "else:";
+             NAct KRaw "raise ValueError(f'{{ f|id }}: value {x} is not in [{{ f.data_type.inclusive_value_range.min }}, {{ f.data_type.inclusive_value_range.max }}]')"]);
+           ((CAtom "f.data_type is FloatType"),
+            [NAct KRaw """""""Raises ValueError if the value is finite and outside of the permitted range, regardless of the cast mode.""""""";
+             NIf [
+               ((CAtom "f.data_type.bit_length < 64"),
+                [NAct KRaw "x = float(x)";
+                 NAct KRaw "in_range = {{ f.data_type.inclusive_value_range.min }}.0 <= x <= {{ f.data_type.inclusive_value_range.max }}.0";
+                 NAct KRaw "if in_range or not _np_.isfinite(x):";
+                 NAct KRaw "self._{{ f|id }} = x";
+                 NAct KRaw "else:";
+                 NAct KRaw "raise ValueError(f'{{ f|id }}: value {x} is not in [{{ f.data_type.inclusive_value_range.min }}, {{ f.data_type.inclusive_value_range.max }}]')"])]
+              [NAct KRaw "self._{{ f|id }} = float(x)"]]);
+           ((CAtom "f.data_type is ArrayType"),
+            [NAct KRaw "{{ assign_array(f, 'x') | indent(4) }}"]);
+           ((CAtom "f.data_type is CompositeType"),
+            [NAct KRaw "if isinstance(x, {{ f.data_type|full_reference_name }}):";
+             NAct KRaw "self._{{ f|id }} = x";
+             NAct KRaw "else:";
+             NAct KRaw "raise ValueError(f'{{ f|id }}: expected {{ f.data_type|full_reference_name }} got {type(x).__name__}')"])]
+          [NJAssert (CAtom "False")];
+         NIf [
+           ((CAtom "type.inner_type is UnionType"),
+            [NFor "z in type.fields if z.name != f.name"
+              [NAct KRaw "self._{{ z|id }} = None"]])]
+          []];
+       NAct KRaw "def _serialize_(self, _ser_: _Serializer_) -> None:";
+       NAct KRaw "{{ serialize(type) | remove_blank_lines | indent }}";
+       NAct KRaw "@staticmethod";
+       NAct KRaw "def _deserialize_(_des_: _Deserializer_) -> {{ full_class_name }}:";
+       NAct KRaw "{{ deserialize(type, full_class_name) | remove_blank_lines | indent }}";
+       NAct KRaw "assert isinstance(self, {{ full_class_name }})";
+       NAct KRaw "return self";
+       NAct KRaw "def __repr__(self) -> str:";
+       NIf [
+         ((CAtom "type.inner_type is not UnionType"),
+          [NAct KRaw "_o_0_ = ', '.join([";
+           NFor "f in type.fields_except_padding"
+            [NAct KRaw "'{{ f.name }}=%s' % {{ printable_field_representation(f) }},"];
+           NAct KRaw "])"])]
+        [NAct KRaw "_o_0_ = '(MALFORMED UNION)'";
+         NFor "f in type.fields"
+          [NAct KRaw "if self.{{ f|id }} is not None:";
+           NAct KRaw "_o_0_ = '{{ f.name }}=%s' % {{ printable_field_representation(f) }}"]];
+       NAct KRaw "return f'{{ type.full_name }}.{{ type.version.major }}.{{ type.version.minor }}({_o_0_})'";
+       NIf [
+         ((CAtom "T.has_fixed_port_id"),
+          [NAct KRaw "_FIXED_PORT_ID_ = {{ T.fixed_port_id|int }}"])]
+        [];
+       NJAssert (CAtom "type.extent % 8 == 0");
+       NAct KRaw "_EXTENT_BYTES_ = {{ type.extent // 8 }}";
+       NSet "meta_type" "type.__class__.__name__";
+       NAct KRaw "_MODEL_: _pydsdl_.{{ meta_type }} = _restore_constant_(";
+       NAct KRaw "{{ type | pickle | indent(8) }}";
+       NAct KRaw ")";
+       NAct KRaw "assert isinstance(_MODEL_, _pydsdl_.{{ meta_type }})"])]
+    [];
+   NAct KRaw "def _restore_constant_(encoded_string: str) -> object:";
+   NAct KRaw "import pickle, gzip, base64";
+   NAct KRaw "return pickle.loads(gzip.decompress(base64.b85decode(encoded_string)))";
+   NIf [
+     ((CAtom "<block> contents"),
+      [])]
+    []].
